@@ -147,6 +147,16 @@ where
                 if self.cfg.walk.load(Ordering::SeqCst) {
                     r.chain = span.scope().map(|s| s.id().into_u64()).collect();
                     r.chain_root = span.scope().from_root().map(|s| s.id().into_u64()).collect();
+                    // walking up with `parent()` must visit the same spans as the scope iterator
+                    let mut by_parent = vec![span.id().into_u64()];
+                    let mut p = span.parent();
+                    while let Some(x) = p {
+                        by_parent.push(x.id().into_u64());
+                        p = x.parent();
+                    }
+                    if by_parent != r.chain {
+                        violation("parent-walk-differs", format!("layer {} (stack {}): walking up from span {} with SpanRef::parent() visits {:?} but scope() yields {:?}", self.layer, self.stack, span.id().into_u64(), by_parent, r.chain));
+                    }
                     // every element's data must be readable
                     for s in span.scope() {
                         let _ = s.extensions().get::<Serials>().map(|x| x.0.len());
@@ -204,6 +214,15 @@ where
         if self.cfg.walk.load(Ordering::SeqCst) {
             if let Some(scope) = ctx.event_scope(event) {
                 r.chain = scope.map(|s| s.id().into_u64()).collect();
+            }
+            let mut by_parent = vec![];
+            let mut p = ctx.event_span(event);
+            while let Some(x) = p {
+                by_parent.push(x.id().into_u64());
+                p = x.parent();
+            }
+            if by_parent != r.chain {
+                violation("parent-walk-differs", format!("layer {} (stack {}): walking up from the event's span with SpanRef::parent() visits {:?} but event_scope() yields {:?}", self.layer, self.stack, by_parent, r.chain));
             }
             if let Some(scope) = ctx.event_scope(event) {
                 r.chain_root = scope.from_root().map(|s| s.id().into_u64()).collect();
